@@ -255,6 +255,56 @@ def run(res, a):
             viol.append(("the program loads the ROM word named %s (%d) and writes it to o0; the simulated machine ends with o0 = %s"
                          % (nm, val, r["ticks"][-1]["out"]), {"source": {"text": text, "nodyn": True}}))
     hist["data_section_sources"] = len(dreqs)
+    # wider data (dd next to db at register size 32: every datum is one ROM word) and macros (a macro call means its body, in place)
+    xreqs, xmeta = [], []
+    for _ in range(4 if a.tier == "quick" else 40):
+        names = rnd.sample(["alpha", "beta", "gamma", "delta", "eps"], rnd.randint(3, 5))
+        vars_ = []
+        for nm in names:
+            if rnd.random() < 0.5:
+                vars_.append((nm, "dd", rnd.randrange(1 << 20, 1 << 31)))
+            else:
+                vars_.append((nm, "db", rnd.randrange(1, 250)))
+        pick = rnd.randrange(1, len(vars_))
+        text = ("%section code .romtext iomode:async\n  entry _start\n_start:\n  mov r1, rom:" + vars_[pick][0] + "\n  mov r0, rom:[r1]\n  mov o0, r0\nhalt:\n  j halt\n%endsection\n"
+                "%section consts .romdata\n" + "".join("  %s %s %s\n" % (nm, kind, hex(v)) for nm, kind, v in vars_) + "%endsection\n"
+                "%meta cpdef cpu romcode:code, romdata:consts, ramsize:0\n%meta iodef x type:io\n"
+                "%meta ioatt x cp:cpu, type:output, index:0\n%meta ioatt x cp:bm, type:output, index:0\n%meta bmdef global registersize:32\n")
+        xreqs.append({"bm": {"basm": text, "nodyn": True}, "env": [{"in": [], "outrecv": [-1]}] * 16, "ticks": 16, "dump": "ext"})
+        xmeta.append((text, "the ROM word named %s (%d)" % (vars_[pick][0], vars_[pick][2]), vars_[pick][2]))
+    for _ in range(4 if a.tier == "quick" else 40):
+        pool = ["inc r0", "dec r0", "inc r1", "add r0, r1", "inc r0"]
+        mbody = [rnd.choice(pool) for _ in range(rnd.randint(2, 4))]
+        main = []
+        for _k in range(rnd.randint(3, 6)):
+            main.append("CALL" if rnd.random() < 0.35 else rnd.choice(pool))
+        if "CALL" not in main:
+            main.insert(rnd.randrange(len(main)), "CALL")
+        regs = [0, 0]
+        for ins in [x for m_ in main for x in (mbody if m_ == "CALL" else [m_])]:
+            w = ins.replace(",", "").split()
+            if w[0] == "inc":
+                regs[int(w[1][1])] = (regs[int(w[1][1])] + 1) % 256
+            elif w[0] == "dec":
+                regs[int(w[1][1])] = (regs[int(w[1][1])] - 1) % 256
+            else:
+                regs[0] = (regs[0] + regs[1]) % 256
+        text = ("%macro bump 0\n" + "".join("  %s\n" % l for l in mbody) + "%endmacro\n"
+                "%section code .romtext iomode:async\n  entry _start\n_start:\n  clr r0\n  clr r1\n" +
+                "".join("  %s\n" % ("bump" if l == "CALL" else l) for l in main) + "  mov o0, r0\nhalt:\n  j halt\n%endsection\n"
+                "%meta cpdef cpu romcode:code, ramsize:0\n%meta iodef x type:io\n"
+                "%meta ioatt x cp:cpu, type:output, index:0\n%meta ioatt x cp:bm, type:output, index:0\n%meta bmdef global registersize:8\n")
+        xreqs.append({"bm": {"basm": text, "nodyn": True}, "env": [{"in": [], "outrecv": [-1]}] * 40, "ticks": 40, "dump": "ext"})
+        xmeta.append((text, "the value the program computes with its macro calls replaced by the macro's body (%d)" % regs[0], regs[0]))
+    for (text, what, val), r in zip(xmeta, simlib.run_sims(xreqs)):
+        res.count_case(text, nontrivial=True)
+        if r.get("err"):
+            viol.append((("the machine assembled from a well-formed source cannot be simulated: %s" if "process dies" in r["err"] else
+                          "the assembler rejects a well-formed source: %s") % r["err"], {"source": {"text": text, "nodyn": True}}))
+        elif r["ticks"][-1]["out"] != [val]:
+            viol.append(("the program writes %s to o0; the simulated machine ends with o0 = %s" % (what, r["ticks"][-1]["out"]),
+                         {"source": {"text": text, "nodyn": True}}))
+    hist["wide_data_and_macro_sources"] = len(xreqs)
     cov = res.coverage
     cov["rule"] = ("generated BASM sources: 1-3 processors, 3-12 instructions each over explicit opcodes and the four mov forms, 1-4 labels with forward "
                    "and backward j/jz, the entry directive first or elsewhere, sync or async iomode, register size 8/16/32, processors wired by ioatt "
